@@ -407,7 +407,7 @@ def enum_model_ops(path: list, m: Any, level: str = 'basic', kinds: Optional[set
                 continue
             w = getattr(m, attr)
             nm = w._raw_type.__name__
-            yield from _seq_ops(path, attr, w, [], [['s', v] for v in STR_DOMAIN.get(nm, ['z'])] + [['s', 'Y']], level)
+            yield from _seq_ops(path, attr, w, [], [['s', v] for v in STR_DOMAIN.get(nm, ['z'])] + [['s', 'YY']], level)
         elif isinstance(desc, PR.cached_custom_property) and attr == 'values':
             if not want('seq'):
                 continue
